@@ -164,6 +164,13 @@ pub fn clear_column(path: &Path, column: ColId) -> Result<()> {
 		return Err(Error::Migration("Invalid column index".into()))
 	}
 
+	// Open the database first: this replays and removes any pending write-ahead logs (they would
+	// otherwise be replayed into the cleared column on the next open) and fails if it is in use.
+	let mut options = Options::with_columns(path, meta.columns.len() as u8);
+	options.salt = Some(meta.salt);
+	options.columns = meta.columns;
+	drop(Db::open(&options)?);
+
 	crate::column::Column::drop_files(column, path.to_path_buf())?;
 
 	Ok(())
